@@ -48,7 +48,18 @@ func genC11(r *simrt.Rand, tier string) (Cfg, *Program) {
 	pf.ErrReaderPct = 30
 	pf.CloseInFnPct = 8
 	pf.IDPct = 40 // chosen job ids (printable, control characters, non-BMP runes) must survive storage
-	return generate(r, pf)
+	c, p := generate(r, pf)
+	if r.Chance(25) {
+		// entries this worker cannot decode (written by something else): delivered, reported,
+		// never processed - and therefore never acknowledged
+		for i, n := 0, 1+r.Intn(2); i < n && len(p.Tasks) > 0; i++ {
+			t := r.Intn(len(p.Tasks))
+			pos := r.Intn(len(p.Tasks[t]) + 1)
+			op := Op{K: opInject, Q: 0, A: r.Intn(4)}
+			p.Tasks[t] = append(p.Tasks[t][:pos:pos], append([]Op{op}, p.Tasks[t][pos:]...)...)
+		}
+	}
+	return c, p
 }
 
 // deriveC11 lists the crash points to sweep for a finished base episode.
@@ -185,7 +196,9 @@ func judgeC11(j *judgeCtx) {
 		}
 	}
 	// fault-free, no crash: everything acknowledged exactly once
-	if !wd.crashed && ad.FiredAck == 0 && ad.FiredDeq == 0 && j.finalState == lsR {
+	// (with undecodable entries in the backend: their deliveries stay unacknowledged, and
+	// they may still be among the pending ones)
+	if !wd.crashed && ad.FiredAck == 0 && ad.FiredDeq == 0 && ad.injected == 0 && j.finalState == lsR {
 		if len(ad.unacked) != 0 {
 			j.add("C11.e", j.final, "%d deliveries are still unacknowledged at rest although nothing failed (first: %s, submission %d)", len(ad.unacked), ad.unacked[0].ID, ad.unacked[0].E.Sub)
 		}
